@@ -181,7 +181,17 @@ def k2(ctx, kr):
             added = [tk for tk in out if isinstance(tk.f[4], Str) and tk.f[4].conc() == '']
             struct_ok = [tk.f[4].conc() for tk in orig] == ['t%d' % i for i in range(N)] and all(simp(disc(tk) == SEMI) is True for tk in added)
             if not struct_ok:
-                kr.findings.append(Finding('C08/K2/tokens-not-preserved', 'terminator insertion drops, reorders or alters tokens', {'n': N, 'out': repr(out)[:300]}, replay=None)); return
+                if any(f.role == 'C08/K2/tokens-not-preserved' for f in kr.findings): return
+                s0 = z3.Solver(); s0.add(*pr.pc); s0.add(*[z3.ULT(t, len(TT)) for t in types])
+                s0.push(); s0.add(*[z3.Or([t == v for v in SAFE]) for t in types])
+                s0.add(*[z3.Not(z3.And(z3.Or([types[i] == v for v in WORDY]), z3.Or([types[i + 1] == v for v in WORDY]))) for i in range(N - 1)])
+                r0 = LC.check(s0, kr)
+                if r0 != z3.sat: s0.pop(); r0 = LC.check(s0, kr)
+                if r0 != z3.sat: return
+                seq = [TT[s0.model().eval(t, True).as_long()] for t in types]; text = ''.join(samples.get(x, x) for x in seq)
+                kept = [tk.f[4].conc() for tk in out if isinstance(tk.f[4], Str) and tk.f[4].conc() != '']
+                kr.findings.append(Finding('C08/K2/tokens-not-preserved', 'terminator insertion drops, reorders or alters tokens: of the %d tokens %s only %s come back' % (N, ' '.join(seq), kept),
+                                           {'token_types': seq, 'text': text}, replay=_replay_preserved(text, seq))); return
             conds = []; knowns = []
             for i, tk in enumerate(out):
                 if tk in added: continue
@@ -239,6 +249,16 @@ def _endif_role(seq):
             while j >= 0 and seq[j] in ('Comment', 'Whitespace', 'Newline', 'Semicolon'): j -= 1
             return '+'.join(cls(y) for y in seq[max(j, 0):i + 1]) + '>' + cls(rest[0])
     return '-'.join(cls(y) for y in seq)
+
+def _replay_preserved(text, seq):
+    def rp(ctx):
+        r = ctx.replay({'cmd': 'tokenize', 'source': text})
+        toks = r.get('tokens', [])
+        real = [t['type'] for t in toks if not (t['type'] == 'Semicolon' and t['text'] == '')]
+        joined = ''.join(t['text'] for t in toks)
+        if joined == text and real != seq: return None, {'note': 'text did not lex to the intended token types', 'got': real, 'want': seq}
+        return joined != text, {'source': text, 'token_texts_joined': joined}
+    return rp
 
 def _replay_endif(text, seq):
     def rp(ctx):
@@ -439,4 +459,95 @@ def k6(ctx, kr):
     kr.assumptions = ['upper-casing the ASCII letters of an identifier is the re-spelling considered; Id / Type compare and hash by their lower-case form (K4)']
     kr.outside = ['rules without a template; re-spelling of keywords (K1a, K5); mixed-case spellings']
 
-KERNELS = [k1a, k1b, k2, k4, k5, k6]
+# ---------------------------------------------------------------------------------------------- K7 whole analysis under re-spelling of identifier occurrences
+RESPELL_PROGRAMS = {
+    'enum_variable': 'TYPE\n  mycolors : (red, green);\nEND_TYPE\nFUNCTION_BLOCK example\nVAR\n  color : mycolors := red;\n  other : mycolors;\nEND_VAR\n  color := green;\n  other := color;\nEND_FUNCTION_BLOCK\n',
+    'fb_instances': 'FUNCTION_BLOCK callee\nVAR_INPUT\n  in1 : BOOL;\nEND_VAR\nVAR_OUTPUT\n  out1 : BOOL;\nEND_VAR\n  out1 := in1;\nEND_FUNCTION_BLOCK\nFUNCTION_BLOCK caller\nVAR\n  inst : callee;\n  flag : BOOL;\nEND_VAR\n  inst(in1 := flag, out1 => flag);\nEND_FUNCTION_BLOCK\n',
+    'struct_and_alias': 'TYPE\n  point : STRUCT\n    px : INT;\n    py : INT;\n  END_STRUCT;\n  ali : point;\n  lvl : (lo, hi) := lo;\n  lvl2 : lvl;\nEND_TYPE\nFUNCTION_BLOCK user\nVAR\n  pt : ali;\n  lv : lvl2 := hi;\nEND_VAR\nEND_FUNCTION_BLOCK\n',
+    'configuration': 'CONFIGURATION cfg\n  VAR_GLOBAL CONSTANT\n    gconst : INT := 1;\n  END_VAR\n  RESOURCE res ON plc\n    TASK tsk(INTERVAL := T#100ms, PRIORITY := 1);\n    PROGRAM inst WITH tsk : prog;\n  END_RESOURCE\nEND_CONFIGURATION\nPROGRAM prog\nVAR_EXTERNAL CONSTANT\n  gconst : INT;\nEND_VAR\nVAR\n  cnt : INT;\nEND_VAR\n  cnt := cnt + gconst;\nEND_PROGRAM\n',
+}
+
+def _occurrences(text):
+    """identifier occurrences that may be re-spelled: words that are not keywords (upper-case words and type keywords are keywords in these programs)"""
+    out = []
+    for m in re.finditer(r'[A-Za-z_][A-Za-z0-9_]*', text):
+        w = m.group(0)
+        if w.islower() and w not in ('t',) and not re.fullmatch(r'\d+ms', w) and text[m.start() - 1:m.start()] != '#': out.append((m.start(), m.end()))
+    return out
+
+def _k7_job(job):
+    pname, lo, hi = job
+    from . import C10 as K10
+    ctx = _CTX; part = Part()
+    text = RESPELL_PROGRAMS[pname]; occ = _occurrences(text)
+    P = ctx.program()
+    k_parse = P.find_fn('ironplc-parser', 'parse_program'); k_an = P.find_fn('ironplc-analyzer', 'stages::analyze')
+    k_opt = [k for k in P.items if k[0] == 'ironplc-parser' and re.search(r'ParseOptions as (std::default::)?Default>::default|options::<impl at [^>]*>::default', k[1])]
+    holder = {}; st = {}
+    M = Machine(P, stubs=K10.dyn_lexer_stubs(ctx, holder), max_steps=800_000_000)
+    M.toposort_deterministic = True
+    def verdict(M, src):
+        fid = Ref(Cell(Agg('FileId', [Str('f.st')])))
+        opts = Ref(Cell(M.call_fn(k_opt[0], []) if k_opt else Agg('ParseOptions', [False])))
+        r = M.call_fn(k_parse, [Ref(Cell(Str(src))), fid, opts])
+        if r.disc != 0: return ('parse-error',)
+        a = M.call_fn(k_an, [Ref(Cell(VecV([Ref(Cell(r.f[0]))])))])
+        if a.disc == 0: return ('ok',)
+        codes = []
+        for d in a.f[0].items:
+            c = M.deref(M.deref(d).f[0]); codes.append(c.conc() if isinstance(c, Str) else '?')
+        return ('err', tuple(sorted(codes)))
+    def entry(M):
+        sel = M.fresh_bv('occurrence', 16); M.declare_domain(sel, list(range(lo, hi)))
+        k = lo
+        for v in range(lo, hi - 1):
+            if M.branch(sel == v): k = v; break
+            k = v + 1
+        a, b = occ[k]; st['k'] = k
+        src = text[:a] + text[a:b].upper() + text[b:]; st['src'] = src
+        return verdict(M, text), verdict(M, src)
+    def on_path(M, pr):
+        part.paths += 1
+        if pr.inconclusive: part.inconc('%s: %s' % (pname, pr.inconclusive)); return
+        part.nontrivial += 1
+        src = st['src']; a, b = occ[st['k']]; word = text[a:b]
+        line = text.count('\n', 0, a) + 1
+        rep = ('respelled_program', (text, src))
+        if pr.panic: part.add('C08/K7/%s/panic/%s@%d' % (pname, word, line), 'analysis panics when `%s` on line %d is written in upper case: %s' % (word, line, pr.panic.msg[:60]), {'source': src}, rep); return
+        v0, v1 = pr.result
+        if v0 != v1:
+            part.add('C08/K7/%s/%s@line%d' % (pname, word, line), 'writing `%s` on line %d in upper case changes the verdict from %s to %s' % (word, line, v0, v1), {'source': src, 'canonical': v0, 'respelled': v1}, rep)
+        elif len(part.validate) < 1: part.validate.append(rep)
+        if len(part.samples) < 1: part.samples.append({'program': pname, 'occurrence': word, 'line': line, 'verdict': v1})
+    M.explore(entry, on_path)
+    part.queries += M.stats['smt']; part.encoded = set(M.encoded); part.models = set(M.models_used)
+    return part
+
+@replay_factory('respelled_program')
+def _replay_respelled_program(canon, src):
+    def rp(ctx):
+        r0 = ctx.replay({'cmd': 'analyze', 'sources': [canon]}); r1 = ctx.replay({'cmd': 'analyze', 'sources': [src]})
+        if 'panic' in r1: return True, r1
+        key = lambda r: ('parse_error' in r, sorted(d['code'] for d in r.get('diagnostics', [])))
+        return key(r0) != key(r1), {'canonical': key(r0), 'respelled': key(r1), 'source': src[-200:]}
+    return rp
+
+@kernel('K7 analyze.verdict_under_respelling')
+def k7(ctx, kr):
+    global _CTX
+    _CTX = ctx
+    jobs = []
+    for pn, text in RESPELL_PROGRAMS.items():
+        n = len(_occurrences(text)); step = max(1, (n + 3) // 4)
+        for lo in range(0, n, step): jobs.append((pn, lo, min(n, lo + step)))
+    kr.bounds = ('%d programs (%s); one identifier occurrence at a time (symbolic selector over all %d occurrences) is written in upper case; parse_program + stages::analyze (type resolution and every rule) on the MIR: '
+                 'the verdict and the problem codes must be those of the canonical spelling' % (len(RESPELL_PROGRAMS), ', '.join(RESPELL_PROGRAMS), sum(len(_occurrences(t)) for t in RESPELL_PROGRAMS.values())))
+    for part in par_map(_k7_job, jobs): merge_part(kr, part)
+    P = ctx.program()
+    kr.functions = fn_paths(P, getattr(kr, '_enc', set()))[:150] + ['ironplc-parser::<TokenType as Logos>::lex (lifted)']
+    kr.exhaustive = True
+    kr.assumptions = ['toposort tie-breaks taken deterministically (order independence: C06)']
+    kr.outside = ['programs other than the templates; several occurrences re-spelled at once; mixed-case spellings']
+
+KERNELS = [k1a, k1b, k2, k4, k5, k6, k7]
+
